@@ -219,6 +219,13 @@ pub fn singular_query_segments(rule: Pair<Rule>) -> Parsed<Vec<SingularQuerySegm
     for r in rule.into_inner() {
         match r.as_rule() {
             Rule::name_segment => {
+                let val = r.as_str().strip_prefix(".").unwrap_or_default();
+                if val != val.trim_start() {
+                    return Err(JsonPathError::InvalidJsonPath(format!(
+                        "Invalid name segment `{}`",
+                        r.as_str()
+                    )));
+                }
                 segments.push(SingularQuerySegment::Name(
                     next_down(r)?.as_str().trim().to_string(),
                 ));
